@@ -18,6 +18,8 @@ class Ob:
         self.info = {}
 
     def require(self, name, prop, **info):
+        info = dict(self.info, **info)
+        info["prop"] = prop
         self.reqs.append((name, prop, info))
 
     def twin(self, name, prop):
